@@ -857,7 +857,7 @@ def outcome_class(case, o):
     return "v%d-%s-%s" % (o.parse["version"], k, a)
 
 
-def run_property(prop, monitor, crate_rule, n_quick=700, n_thorough=1500, weights=None, extra_assumptions=()):
+def run_property(prop, monitor, crate_rule, n_quick=700, n_thorough=1500, weights=None, extra_assumptions=(), pre_finish=None):
     c = vplib.Check(prop)
     c.run_gate()
     n = n_quick if c.tier == "quick" else n_thorough
@@ -867,6 +867,8 @@ def run_property(prop, monitor, crate_rule, n_quick=700, n_thorough=1500, weight
     exe, log, mode = vplib.build_harness("ntp-proto", prop)
     if exe is None:
         c.not_shown_because("correspondence %s model <-> ntp-proto harness: the harness no longer builds against the current tree: %s" % (prop, log[-1500:]))
+        if pre_finish:
+            pre_finish(c)
         return c.finish()
     if mode != "verif_all":
         c.notes.append("harness built in isolation (%s): another property's harness module does not compile" % mode)
@@ -909,6 +911,8 @@ def run_property(prop, monitor, crate_rule, n_quick=700, n_thorough=1500, weight
     c.cov["rule"] = crate_rule
     if c.gate is not None and not c.gate.ok and any("proof build failed" in p for p in c.gate.problems):
         c.not_shown_because("correspondence %s: not evaluated, the Coq development does not build" % prop)
+        if pre_finish:
+            pre_finish(c)
         return c.finish()
     mism, errors = vplib.run_coq_cases(prop, PREAMBLE, terms, CHECKER, shard=150)
     for e in errors:
@@ -932,4 +936,6 @@ def run_property(prop, monitor, crate_rule, n_quick=700, n_thorough=1500, weight
         "reception time, clock reading, precision.log2(), the wire encodings of root delay/dispersion and the Bloom filter bytes are inputs of the model (computed by the same Rust functions in the harness)",
         "requests are at most 1024 bytes (the daemon's receive buffer, constant DAEMON_MAX_PACKET_SIZE)",
     ] + list(extra_assumptions)
+    if pre_finish:
+        pre_finish(c)
     return c.finish()
